@@ -210,7 +210,9 @@ example : isWs 10 = true := by decide
 ASCII85 — the data reads as `out` by the literal §7.4.2 / §7.4.3; Flate — zlib inflates the data
 to something that is `out` itself or its TIFF / PNG predicted form (`flate_not_wrong_bytes`);
 DCT / JPX — handed on unchanged (tabula leaves image data to the image code); CCITT — what
-x/image/ccitt returns for the arguments `ccittFaxDecode` derives from the parameters. No other filter name ever yields bytes. -/
+x/image/ccitt returns for the arguments `ccittFaxDecode` derives from the parameters, when that is at
+most `maxCCITTOutput` = 64 MiB (a larger image is an error since fix 6dc2783: `ccittFaxDecode` ends in
+`ccittLimit`; `C05E.ccitt_stage_bounded`). No other filter name ever yields bytes. -/
 def StageReads (ext : Ext) (name : Str) (params : Option Params) (inp out : Str) : Prop :=
   ((name = nASCIIHexDecode ∨ name = nAHx) ∧ hexSpec inp = some out) ∨
   ((name = nASCII85Decode ∨ name = nA85) ∧ a85Spec inp = some out) ∨
